@@ -141,14 +141,8 @@ func (w *world) dump() string {
 func (w *world) fail(format string, a ...any) {
 	w.t.Helper()
 	w.failed = true
-	w.t.Fatalf("C14 violated: %s\nmodel: %s\noperations:\n  %s\nhistory:\n%s",
+	w.t.Fatalf("C14 violated: %s\nmodel (after the last operation): %s\noperations:\n  %s\nhistory:\n%s",
 		fmt.Sprintf(format, a...), w.dump(), strings.Join(w.ops, "\n  "), w.b.Hist)
-}
-
-func (w *world) harness(err error) {
-	if err != nil {
-		w.t.Fatalf("harness: %v\nhistory:\n%s", err, w.b.Hist)
-	}
 }
 
 func (w *world) panics() {
@@ -251,7 +245,7 @@ func (w *world) name(label string) string {
 }
 
 // existing draws an existing mailbox, preferring those with inferiors.
-func (w *world) existing(label string) (string, bool) {
+func (w *world) existing(label string) string {
 	var all, ordinary, parents []string
 
 	for _, n := range w.m.Names() {
@@ -270,12 +264,12 @@ func (w *world) existing(label string) (string, bool) {
 
 	switch c := w.draw(8, label+"/class"); {
 	case c <= 3 && len(parents) > 0:
-		return w.pick(parents, label+"/parent"), true
+		return w.pick(parents, label+"/parent")
 	case c <= 6 && len(ordinary) > 0:
-		return w.pick(ordinary, label+"/ordinary"), true
+		return w.pick(ordinary, label+"/ordinary")
 	}
 
-	return w.pick(all, label+"/any"), true
+	return w.pick(all, label+"/any")
 }
 
 func (w *world) trailing(name, label string) string {
@@ -405,7 +399,7 @@ func (w *world) delete() {
 	if w.draw(3, "delete/how") == 0 {
 		name = w.name("delete")
 	} else {
-		n, _ := w.existing("delete")
+		n := w.existing("delete")
 		name = w.respell(n, "delete")
 	}
 
@@ -422,7 +416,7 @@ func (w *world) rename() {
 	if w.draw(4, "rename/how") == 0 {
 		from = w.trailing(w.name("rename/from"), "rename/from")
 	} else {
-		n, _ := w.existing("rename/from")
+		n := w.existing("rename/from")
 		from = w.respell(n, "rename/from")
 	}
 
@@ -525,7 +519,7 @@ func (w *world) subscribe(un bool) {
 	case c <= 5 && len(cand) > 0:
 		name = w.respell(w.pick(cand, "sub/cand"), "sub")
 	default:
-		n, _ := w.existing("sub")
+		n := w.existing("sub")
 		name = w.respell(n, "sub")
 	}
 
@@ -547,6 +541,8 @@ func (w *world) subscribe(un bool) {
 // the connector are learned by name; renamed inferiors (gluon renames them locally only) and leftovers of refused
 // commands are corrected.
 func (w *world) syncRemote() {
+	var orphans []string // names the connector was asked to create that the model does not expect
+
 	w.u.Conn.Lock(func() {
 		known := map[string]string{} // id -> name
 
@@ -578,6 +574,8 @@ func (w *world) syncRemote() {
 				continue
 			}
 
+			orphans = append(orphans, n)
+
 			delete(w.u.Conn.Mailboxes, imap.MailboxID(id)) // leftover of a refused or rolled back command
 		}
 
@@ -590,7 +588,7 @@ func (w *world) syncRemote() {
 
 	for n, b := range w.m.Boxes {
 		if b.ID == "" {
-			w.fail("the server reported success but never asked the connector to create %q", n)
+			w.fail("after the last operation mailbox %q exists according to the reference model, but the server never asked the connector to create it (it asked for %q)", n, orphans)
 		}
 	}
 }
@@ -711,7 +709,7 @@ func (w *world) connDelete() {
 		return
 	}
 
-	n, _ := w.existing("connDelete")
+	n := w.existing("connDelete")
 	if n == ns.Inbox || n == ns.Recovery {
 		n = w.pick(boxes, "connDelete/which")
 	}
